@@ -1,10 +1,33 @@
 (** Correspondence cases for C04: the harness records inputs and the implementation's
     observed outputs; [check] re-runs the model and compares. *)
-From Coq Require Import List ZArith Bool.
-From Paloma Require Import Base.Corr Base.Num Cons.Median Cons.Quorum.
+From Coq Require Import String.
+From Coq Require Import List ZArith NArith Bool.
+From Coq Require Import Strings.Byte.
+From Paloma Require Import Base.Corr Base.Num Cons.Median Cons.Quorum Cons.EvidenceBytes.
 From Paloma Require Gen.C04.
 Import ListNotations.
 Open Scope Z_scope.
+
+(** Proofs as the harness writes them: printable ASCII as a string, anything else as byte values. *)
+Inductive ctext := TS (s : string) | TB (l : list Z).
+Definition text_of (t : ctext) : text :=
+  match t with TS s => list_byte_of_string s | TB l => map byte_of_Z l end.
+
+Inductive cproof :=
+| CPTx (tx : ctext) (receipt : option ctext)
+| CPErr (m : ctext)
+| CPBal (h : Z) (bs : list ctext)
+| CPRef (h : Z) (hash : ctext)
+| CPNone.
+
+Definition proof_of (c : cproof) : proof :=
+  match c with
+  | CPTx t r => PTx (text_of t) (option_map text_of r)
+  | CPErr m => PErr (text_of m)
+  | CPBal h bs => PBal (Z.to_N h) (map text_of bs)
+  | CPRef h s => PRef (Z.to_N h) (text_of s)
+  | CPNone => PUnhashable
+  end.
 
 Inductive obs := OWinner (tag data : Z) | ONotAchieved | OFailed.
 
@@ -23,7 +46,12 @@ Inductive case :=
 | CEstimates (sn : list (Z * Z)) (total : Z) (es : list (Z * Z)) (got : Z)
 | CEvidence (sn : list (Z * Z)) (total : Z) (evs : list (Z * Z * Z * bool)) (got : obs)
 | CQueue (requires : bool) (ops : list qop) (evs : list (Z * Z * Z * bool)) (es : list (Z * Z)) (elected : Z)
-| CEndBlock (requires : bool) (ops : list eop) (es : list (Z * Z)) (elected : Z).
+| CEndBlock (requires : bool) (ops : list eop) (es : list (Z * Z)) (elected : Z)
+(** BytesToHash of one real proof message: the bytes (None = error) *)
+| CBytes (p : cproof) (got : option ctext)
+(** VerifyEvidence on structured proofs: [subs] = (validator, index into [proofs]); [got] = index of
+    a proof with the winner's type and bytes, -1 = not achieved, -2 = failed *)
+| CEvidenceP (sn : list (Z * Z)) (total : Z) (proofs : list cproof) (subs : list (Z * Z)) (got : Z).
 
 (** Ideal (collision-free) group key: the pair itself. *)
 Definition ikey (tag data : Z) : Z * Z := code_key (fun t d => (t, d)) tag data.
@@ -113,5 +141,25 @@ Definition check (c : case) : bool :=
       match fold_left estep ops (Some {| q_requires := requires; q_estimates := []; q_elected := 0; q_nsigs := 0 |}) with
       | None => false
       | Some m => list_eqb es_eqb (q_estimates m) (map mk_es es) && (q_elected m =? elected)
+      end
+  | CBytes p got =>
+      match bytes_to_hash (proof_of p), got with
+      | Some b, Some g => text_eqb b (text_of g)
+      | None, None => true
+      | _, _ => false
+      end
+      && match proof_of p with
+         | PTx t r => well_framedb t && match r with Some [] => false | _ => true end
+         | _ => true
+         end
+  | CEvidenceP sn total proofs subs got =>
+      let pevs := map (fun s => {| pe_val := fst s; pe_proof := proof_of (nth (Z.to_nat (snd s)) proofs CPNone) |}) subs in
+      match verify_evidence ikeqb ikey (fun g => g) {| sn_vals := sn; sn_total := total |} (map ev_of pevs) with
+      | Winner w =>
+          (0 <=? got) &&
+          let g := ev_of {| pe_val := 0; pe_proof := proof_of (nth (Z.to_nat got) proofs CPNone) |} in
+          (ev_tag w =? ev_tag g) && (ev_data w =? ev_data g) && negb (ev_bad g)
+      | NotAchieved => got =? -1
+      | Failed => got =? -2
       end
   end.
